@@ -18,7 +18,7 @@ TRUSTED_BASE = [
 ]
 
 
-def write(prop, tier, seed, ded, nat, reproduced, n_viol, undecided, checker_errors, wall):
+def write(prop, tier, seed, ded, nat, reproduced, n_viol, undecided, checker_errors, wall, rt=None):
     from vlib.manifest import LEVELS, ASSUMPTIONS
 
     level = LEVELS.get(prop, "other")
@@ -56,6 +56,17 @@ def write(prop, tier, seed, ded, nat, reproduced, n_viol, undecided, checker_err
             "known_findings_reproduced": reproduced,
         }
     )
+    if rt and rt.get("functions"):
+        cov["runtime_cross_check"] = {
+            "what": "every clause of the sidecar contracts (the formulas the prover discharges; assumed contracts included) evaluated on entry/exit snapshots of real calls under CPython "
+                    "(pyvc/rtcheck.py, rtdrive.py): guards the trusted base (engine semantics, axioms, assumed callee contracts, ghost definitions) and yields concrete failing inputs; not a proof",
+            "real_calls": sum(r["cases"] for r in rt["functions"]),
+            "clause_evaluations": sum(r["clauses"] for r in rt["functions"]),
+            "calls_outside_precondition": sum(r["pre_rejected"] for r in rt["functions"]),
+            "not_evaluable": sum(r["not_evaluable"] for r in rt["functions"]),
+            "failing": sum(len(r["failures"]) for r in rt["functions"]),
+            "per_function": {r["qual"]: {"calls": r["cases"], "clauses": r["clauses"], "not_evaluable": r["not_evaluable"], "why_not": list(r.get("reasons", {}))[:2]} for r in rt["functions"]},
+        }
     nd = len([o for o in (ded or {}).get("open", []) if not o.get("known_finding")])
     cov["explanation"] = (
         f"Contract-based verification of the real nutree source. Deductive part: {discharged} of {obligations} generated proof obligations discharged"
